@@ -196,6 +196,24 @@ impl Cc14Mon {
                 };
                 let gotp = got.as_ref().map(c14m);
                 rep.count("cc14_feeds", 1);
+                // carrier twin: the same message as StructuredShortMessage (and as a foreign
+                // implementor) fed to a copy of the prior state must give the same result and state
+                {
+                    let st = m.to_structured();
+                    let mut twin = before;
+                    let g2 = api("ControlChange14BitMessageScanner::feed", || twin.feed(&st));
+                    let fo: crate::carriers::Foreign = m.to_other();
+                    let mut twin3 = before;
+                    let g3 = api("ControlChange14BitMessageScanner::feed", || twin3.feed(&fo));
+                    if g2 != Some(got) || twin != self.real || g3 != Some(got) || twin3 != self.real {
+                        crate::viol!(
+                            rep,
+                            "C08:result-depends-on-message-representation",
+                            format!("feed({}) returned {:?} for RawShortMessage, {:?} for StructuredShortMessage, {:?} for a foreign implementor (states equal: {} / {})", ev.render(), gotp, g2.map(|x| x.as_ref().map(c14m)), g3.map(|x| x.as_ref().map(c14m)), twin == self.real, twin3 == self.real),
+                            history_json("cc14", None, path, json!(format!("{:?}", gotp)), json!("differs by carrier"))
+                        );
+                    }
+                }
                 if gotp.is_some() {
                     rep.count("cc14_reports_observed", 1);
                 }
@@ -372,6 +390,22 @@ impl PnMon {
                 };
                 let gotp = got.as_ref().map(pnm);
                 rep.count("pn_feeds", 1);
+                {
+                    let st = m.to_structured();
+                    let mut twin = before;
+                    let g2 = api("ParameterNumberMessageScanner::feed", || twin.feed(&st));
+                    let fo: crate::carriers::Foreign = m.to_other();
+                    let mut twin3 = before;
+                    let g3 = api("ParameterNumberMessageScanner::feed", || twin3.feed(&fo));
+                    if g2 != Some(got) || twin != self.real || g3 != Some(got) || twin3 != self.real {
+                        crate::viol!(
+                            rep,
+                            "C11:result-depends-on-message-representation",
+                            format!("feed({}) returned {:?} for RawShortMessage, {:?} for StructuredShortMessage, {:?} for a foreign implementor (states equal: {} / {})", ev.render(), gotp, g2.map(|x| x.as_ref().map(pnm)), g3.map(|x| x.as_ref().map(pnm)), twin == self.real, twin3 == self.real),
+                            history_json("pn", None, path, json!(format!("{:?}", gotp)), json!("differs by carrier"))
+                        );
+                    }
+                }
                 if let Some(g) = &gotp {
                     rep.count(
                         match (g.is14, g.dt) {
